@@ -832,3 +832,84 @@ CONTROLS['C09'] = [
       "            if self.uuid == parent_uuid:\n                raise exception.ObjectActionError(\n"
       "                    action='create',"),
 ]
+
+SC = 'placement/schemas/common.py'
+ORC = O + 'resource_class.py'
+OT = O + 'trait.py'
+HRC = H + 'resource_class.py'
+CONTROLS['C19'] = [
+    M('c19-reintroduce-F5', SC, 'r"^CUSTOM_%s+\\Z" % _RC_TRAIT_CHAR',
+      '"^CUSTOM_%s+$" % _RC_TRAIT_CHAR', 'R19.1'),
+    M('c19-no-end-anchor', SC, 'r"^CUSTOM_%s+\\Z" % _RC_TRAIT_CHAR',
+      'r"^CUSTOM_%s+" % _RC_TRAIT_CHAR', 'R19.1'),
+    M('c19-no-start-anchor', SC, 'r"^CUSTOM_%s+\\Z" % _RC_TRAIT_CHAR',
+      'r"CUSTOM_%s+\\Z" % _RC_TRAIT_CHAR', 'R19.1'),
+    M('c19-lowercase-allowed', SC, '_RC_TRAIT_CHAR = "[A-Z0-9_]"',
+      '_RC_TRAIT_CHAR = "[A-Za-z0-9_]"', 'R19.1'),
+    M('c19-empty-suffix', SC, 'r"^CUSTOM_%s+\\Z" % _RC_TRAIT_CHAR',
+      'r"^CUSTOM_%s*\\Z" % _RC_TRAIT_CHAR', 'R19.1'),
+    M('c19-maxlength-256', 'placement/schemas/resource_class.py',
+      '"maxLength": 255,', '"maxLength": 256,', 'R19.2'),
+    M('c19-trait-no-maxlength', 'placement/schemas/trait.py',
+      "    'minLength': 1, 'maxLength': 255,\n", "    'minLength': 1,\n",
+      'R19.2'),
+    M('c19-min-id-1000', ORC, "    MIN_CUSTOM_RESOURCE_CLASS_ID = 10000",
+      "    MIN_CUSTOM_RESOURCE_CLASS_ID = 1000", 'R19.4'),
+    M('c19-destroy-standard-allowed', ORC,
+      "        if self.id < ResourceClass.MIN_CUSTOM_RESOURCE_CLASS_ID:\n"
+      "            raise exception.ResourceClassCannotDeleteStandard(\n"
+      "                resource_class=self.name)\n", "", 'R19.4'),
+    M('c19-save-guard-after-write', ORC,
+      "        if self.id < ResourceClass.MIN_CUSTOM_RESOURCE_CLASS_ID:\n"
+      "            raise exception.ResourceClassCannotUpdateStandard(\n"
+      "                resource_class=self.name)\n"
+      "        self._save(self._context, self.id, self.name, updates)\n",
+      "        self._save(self._context, self.id, self.name, updates)\n"
+      "        if self.id < ResourceClass.MIN_CUSTOM_RESOURCE_CLASS_ID:\n"
+      "            raise exception.ResourceClassCannotUpdateStandard(\n"
+      "                resource_class=self.name)\n", 'R19.4'),
+    M('c19-next-id-no-floor', ORC,
+      "        if not max_id or max_id < ResourceClass.MIN_CUSTOM_RESOURCE_CLASS_ID:\n"
+      "            return ResourceClass.MIN_CUSTOM_RESOURCE_CLASS_ID\n"
+      "        else:\n            return max_id + 1",
+      "        if not max_id:\n"
+      "            return ResourceClass.MIN_CUSTOM_RESOURCE_CLASS_ID\n"
+      "        else:\n            return max_id + 1", 'R19.4'),
+    M('c19-trait-standard-delete-allowed', OT,
+      "        if not self.name.startswith(self.CUSTOM_NAMESPACE):\n"
+      "            raise exception.TraitCannotDeleteStandard(name=self.name)\n",
+      "", 'R19.4'),
+    M('c19-id-collision-not-retried', ORC,
+      "                if 'id' in e.columns:\n                    # Race condition for ID creation; try again\n                    continue\n", "",
+      'R19.4'),
+    M('c19-put-trait-unvalidated', H + 'trait.py',
+      "    try:\n        jsonschema.validate(name, schema.CUSTOM_TRAIT)\n"
+      "    except jsonschema.ValidationError:\n"
+      "        raise webob.exc.HTTPBadRequest(\n"
+      "            'The trait is invalid. A valid trait must be no longer than '\n"
+      "            '255 characters, start with the prefix \"CUSTOM_\" and use '\n"
+      "            'following characters: \"A\"-\"Z\", \"0\"-\"9\" and \"_\"')\n",
+      "", 'R19.3'),
+    M('c19-put-trait-weak-schema', H + 'trait.py',
+      "        jsonschema.validate(name, schema.CUSTOM_TRAIT)",
+      "        jsonschema.validate(name, schema.TRAIT)", 'R19.3'),
+    M('c19-put-rc-validates-other-value', HRC,
+      "    util.extract_json('{\"name\": \"%s\"}' % name, schema.PUT_RC_SCHEMA_V1_2)",
+      "    util.extract_json('{\"name\": \"%s\"}' % name.strip(), schema.PUT_RC_SCHEMA_V1_2)",
+      'R19.3'),
+    M('c19-exists-as-500', HRC,
+      "    except exception.ResourceClassExists:\n        raise webob.exc.HTTPConflict(\n"
+      "            'Conflicting resource class already exists: %(name)s' %\n"
+      "            {'name': data['name']})\n", "", 'R19.5'),
+    M('c19-sync-not-at-startup', 'placement/deploy.py',
+      "    trait.ensure_sync(ctx)\n", "", 'R19.6'),
+    M('c19-sync-inserts-all', OT,
+      "    batch_args = [\n        {'name': str(trait)}\n        for trait in need_sync\n    ]",
+      "    batch_args = [\n        {'name': str(trait)}\n        for trait in std_traits\n    ]",
+      'R19.6'),
+    M('c19-class-ids-shifted', ORC,
+      "    batch_args = [{'name': str(name), 'id': index}",
+      "    batch_args = [{'name': str(name), 'id': index + 1}", 'R19.6'),
+    B('c19-benign-pattern-equivalent', SC, '_RC_TRAIT_CHAR = "[A-Z0-9_]"',
+      '_RC_TRAIT_CHAR = "[0-9A-Z_]"'),
+]
